@@ -490,11 +490,30 @@ func c20Recursion(c *Check) {
 	if r := c.need("R3", cfgparserRel, "parseContext", "readNodes"); r != nil {
 		info := r.Info
 		reads := r.F.PtCalls(calling("~/" + cfgparserRel + ".parseContext.readNode"))
+		decsNesting := func(inf *types.Info, n ast.Node) bool {
+			found := false
+			inspectNoLit(n, func(x ast.Node) bool {
+				if ids, ok := x.(*ast.IncDecStmt); ok && ids.Tok == token.DEC {
+					if fv := fieldOf(inf, ids.X); fv != nil && fv.Name() == "nesting" {
+						found = true
+					}
+				}
+				return true
+			})
+			return found
+		}
 		var decs []Pt
 		for _, pt := range r.F.Points() {
-			if ids, ok := pt.Node().(*ast.IncDecStmt); ok && ids.Tok == token.DEC {
-				if fv := fieldOf(info, ids.X); fv != nil && fv.Name() == "nesting" {
-					decs = append(decs, pt)
+			if _, ok := pt.Node().(*ast.IncDecStmt); ok && decsNesting(info, pt.Node()) {
+				decs = append(decs, pt)
+				continue
+			}
+			// … or through a method of the parser that does it (`ctx.leaveBlock()`)
+			for _, call := range callsAt(pt.Node()) {
+				if fn := callee(info, call); fn != nil && fn.Pkg() == r.FI.Obj.Pkg() && fn != r.FI.Obj {
+					if d := c.P.DeclOf(fn); d != nil && d.Decl.Body != nil && decsNesting(d.Info(), d.Decl.Body) {
+						decs = append(decs, pt)
+					}
 				}
 			}
 		}
